@@ -385,12 +385,26 @@ class Tensor:
                 stack.pop()
                 ordered_nodes.append(node)
 
+        if not self.matches_shape(grad):
+            raise RuntimeError(f"Attempt to assign grad ({grad.shape}) to  a Tensor ({self.shape}) that has a different shape")
+        
+        # Non-leaf tensors start every backward pass from zero: a gradient kept from an earlier call (retained,
+        # or left on an earlier root) is set aside and added back after the node has propagated, so that it is
+        # not propagated to the leaves a second time
+        kept_grads = {}
+        for node in ordered_nodes:
+            if node.requires_grad and (node._grad is None or not node.is_leaf):
+                if node._grad is not None: kept_grads[node] = node._grad
+                node.zero_()
+
         # Go one tensor at a time and apply the chain rule to get its gradient
-        self.grad = grad
+        self._grad += grad.data
         for i, node in enumerate(reversed(ordered_nodes)):
             if node.grad_fn is not None:
                 #print(node.grad_fn)
                 node.grad_fn()
+            if node in kept_grads:
+                node._grad += kept_grads[node]
             if node is not self and not node.is_leaf and not node._retain_grad and not retain_grads__:
                 del node._grad
                 node._grad = None
